@@ -58,8 +58,8 @@ TOL_FREE = 1e-4
 
 
 def plan(tier, seed):
-    n = 96 if tier == "quick" else 840
-    nh = 28 if tier == "quick" else 240
+    n = 72 if tier == "quick" else 640
+    nh = 24 if tier == "quick" else 200
     rng = np.random.default_rng([int(seed), 5, 777])
     specs = []
     for i in range(n):
